@@ -64,12 +64,14 @@ CLAIMED = {
             'repeated constructions of one generated project must agree, and agree with a reference closure',
             'Decided by simulation: the graph (nodes, edges, is_ignored) does not depend on enumeration order, hash '
             'seed, topological tie-break or full_parse, for generated multi-file projects (modules, free routines, '
-            'qualified/renamed/unqualified imports, type and variable imports, generic interfaces, recursion, externals, '
-            'file names differing only in case) and configs (seeds, disable/block/ignore plain and scoped, expand, '
+            'qualified/renamed/unqualified imports, type and variable imports, generic interfaces, type-bound procedures, '
+            'recursion incl. mutual, externals, '
+            'file names differing only in case) and configs (seeds, disable/block/ignore in every documented spelling incl. '
+            'fnmatch patterns and type parents, expand, '
             'strict, enable_imports). Only sampled: equality with the reference closure computed from the generator\'s '
             'model. Sampling, not proof.',
-            'Reference closure covers the documented sub-language of DESIGN Appendix A (no fnmatch patterns, no '
-            'type-bound procedures, no function references); behaviour outside it is not judged.'),
+            'Reference closure covers the documented sub-language of DESIGN Appendix A and section 10.2 (no function '
+            'references); behaviour outside it is not judged.'),
     'C22': ('batchworld', 'DESIGN.md sec. 5 (C22)',
             'deterministic simulation: seeded choice among valid topological orders and enumeration orders while a '
             'recording probe transformation is processed under generated manifests; history oracle over the probe log',
@@ -77,9 +79,11 @@ CLAIMED = {
             'processing of ignored items, SEQUENCE/PLAN strategy) under adversarial valid orders. Oracle over the '
             'probe history: exactly-once per selected item and none other; callers before callees (reverse: after) for '
             'every dependency path; role/mode as configured; targets sandwich; file-graph passes visit each containing '
-            'file once in an order consistent with cross-file edges; PLAN calls only plan_* hooks. Sampling, not proof.',
+            'file once in an order consistent with cross-file edges; with recurse_to_modules/procedures the hooks received '
+            'inside each file name only graph items, honour ignore rules, each procedure once; PLAN calls only plan_* '
+            'hooks; IR edits between passes. Sampling, not proof.',
             'InterfaceItem (documented as not a work item) is optional in the exactly-once check; targets entries of '
-            'renamed imports are not judged; recurse_to_* manifests are not generated.'),
+            'renamed imports are not judged.'),
     'C24': ('batchworld/plan', 'DESIGN.md sec. 5 (C24)',
             'deterministic simulation: the real plan and convert CLIs are run in-process on identical copies of a '
             'generated project under independently drawn environment orders (set order, topological tie-breaks), with '
@@ -97,7 +101,8 @@ CLAIMED = {
             'Scheduler.process steps on one real Scheduler under simulator-chosen enumeration and topological orders; '
             'invariants over item_cache, graph, config and IR after every step, strict rediscovery of the written sources',
             'Seeded exploration of step histories (Idem, ModuleWrap, Dependency, DuplicateKernel with/without subgraph, '
-            'RemoveKernel; documented orders only) on generated projects. After every step: cache keys = item names; '
+            'RemoveKernel, a second renaming pass; documented orders only) on generated projects. After every step: cache keys '
+            '= item names; every seed names a graph item; renaming steps keep the number of non-ignored procedure items; '
             'every graph item resolves to IR of its name, no two items share a routine; graph membership and '
             'scheduler[name] agree with iteration; every call of a processed routine names a graph item it has an edge '
             'to (or an excluded name); a later no-op transformation visits exactly the graph\'s procedure items. After a '
